@@ -185,7 +185,12 @@ impl Datastore for ClnDatastore {
                 ),
                 string: Some(info),
                 hex: None,
-                mode: Some(DatastoreMode::MUST_REPLACE),
+                // The attempt record may be missing: it is written after the
+                // pending state, and the plugin may have been stopped in
+                // between (or that second write may have failed). Insisting
+                // on replacing an existing record would make every later
+                // payment for this hash fail right here.
+                mode: Some(DatastoreMode::CREATE_OR_REPLACE),
                 generation: None,
             })
             .await?;
